@@ -1,10 +1,11 @@
 package main
 
 import (
-	"go/types"
+	"fmt"
 	"go/ast"
 	"go/constant"
 	"go/token"
+	"go/types"
 	"strings"
 
 	"golang.org/x/tools/go/ssa"
@@ -33,6 +34,7 @@ func runC18(r *Report, p *Program) {
 	c18R4(h)
 	gzipStreamRule(h, "R5")
 	bodyBypassRule(h, "R6", 3, nil)
+	c18R7(h)
 }
 
 // firstFieldTable reads the first (string) field of each element of a package-level []struct literal.
@@ -95,7 +97,7 @@ func (p *Program) firstFieldTable(rel, name string) ([]string, token.Pos) {
 
 func c18R1(h H) {
 	r := h.r
-	r.Rule("R1", "already-encoded table (E10): SkipCompressedFilter.ShouldCompress, evaluated on a response whose header carries each Content-Encoding the file server can emit (the names in staticfiles.staticEncodingPriority) or gzip, returns false; for a response without Content-Encoding it returns true", 4)
+	r.Rule("R1", "already-encoded table (E10): SkipCompressedFilter.ShouldCompress, evaluated on a response whose header carries each Content-Encoding the file server can emit (the names in staticfiles.staticEncodingPriority) or gzip, returns false; for a response without Content-Encoding it returns true; and a table of 13 spellings (other case, a list, a repeated line, codings the server does not know, identity)", 5)
 	names, pos := h.p.firstFieldTable(sfPkg, "staticEncodingPriority")
 	if len(names) == 0 {
 		r.Unresolve("R1", "staticfiles.staticEncodingPriority not found as a literal table")
@@ -109,14 +111,24 @@ func c18R1(h H) {
 	declined := map[string]bool{}
 	undecided := map[string]string{}
 	mapT, _ := types.Unalias(h.p.typeByName("net/http", "Header")).Underlying().(*types.Map)
-	for _, enc := range append([]string{"gzip", "", "identity"}, names...) {
+	// spellings of "already has a coding" / "has none" (codings are case-insensitive tokens, the field is a comma list
+	// and may be repeated; identity is the absence of a coding) — ⏎ separates header lines
+	spelledCoded := []string{"GZIP", "Br", " gzip", "identity, br", "⏎zstd", "compress", "deflate", "x-gzip", "dcb", "gzip, gzip"}
+	spelledPlain := []string{"identity", "Identity", " identity , identity"}
+	all := append([]string{"gzip", ""}, names...)
+	all = append(append(all, spelledCoded...), spelledPlain...)
+	for _, enc := range all {
 		enc := enc
 		env := &absEnv{globals: map[string]*aobj{}, noFork: true, maxSteps: 20000}
 		env.ext = func(callee string, args []aval) (aval, bool) {
 			if callee == "invoke:Header" {
 				m := amap{&amapData{vals: map[string]aval{}, keys: map[string]aval{}, typ: mapT}}
 				if enc != "" {
-					m.m.vals["s:Content-Encoding"] = newVals([]aval{astr(enc)}, types.Typ[types.String])
+					var lines []aval
+					for _, l := range strings.Split(enc, "⏎") {
+						lines = append(lines, astr(l))
+					}
+					m.m.vals["s:Content-Encoding"] = newVals(lines, types.Typ[types.String])
 					m.m.keys["s:Content-Encoding"] = astr("Content-Encoding")
 				}
 				return m, true
@@ -129,6 +141,30 @@ func c18R1(h H) {
 		} else {
 			undecided[enc] = und + " " + describeAval(res)
 		}
+	}
+	{
+		bad := ""
+		for _, enc := range spelledCoded {
+			if undecided[enc] != "" {
+				bad = fmt.Sprintf("Content-Encoding %q: undecided — %s", enc, undecided[enc])
+			} else if !declined[enc] {
+				bad = fmt.Sprintf("a response that already carries Content-Encoding %q is compressed again (the client would decode one layer and get compressed bytes)", strings.ReplaceAll(enc, "⏎", `" + "`))
+			}
+			if bad != "" {
+				break
+			}
+		}
+		for _, enc := range spelledPlain {
+			if bad != "" {
+				break
+			}
+			if undecided[enc] != "" {
+				bad = fmt.Sprintf("Content-Encoding %q: undecided — %s", enc, undecided[enc])
+			} else if declined[enc] {
+				bad = fmt.Sprintf("a response labelled Content-Encoding %q (no coding applied) is refused compression", enc)
+			}
+		}
+		r.Check(bad == "", "R1", "gzip.SkipCompressedFilter.ShouldCompress/any-spelling", pos, "whatever coding a response already names — any case, in a list, on a repeated line, known or not — it is not compressed again; identity is no coding", fmt.Sprintf("%d spellings", len(spelledCoded)+len(spelledPlain)), bad)
 	}
 	r.Check(!declined[""] && undecided[""] == "", "R1", "gzip.SkipCompressedFilter.ShouldCompress/compresses-unencoded", pos, "a response without Content-Encoding is eligible for compression", undecided[""])
 	want := []string{"gzip"}
@@ -419,4 +455,15 @@ func c18R4(h H) {
 	}
 	r.Check(t.sibling == "" && t.other == "", "R4", "staticfiles.FileServer.serveFile/sibling-table", pos,
 		"a precompressed sibling is served only in a coding the client offered, labelled with that coding's own name, and in table order", sprintf("%d cases evaluated", t.cases), t.sibling, t.other)
+}
+
+func c18R7(h H) {
+	r := h.r
+	r.Rule("R7", "offer table (E10): Gzip.ServeHTTP, evaluated with one configuration that no request filter vetoes, hands the next handler the server's own writer — identity coding — for every request of a table of 20 Accept-Encoding spellings that do not offer gzip: no field, an empty one, other codings, tokens that merely contain the letters gzip, gzip with q=0 in four spellings, on one line or two", 1)
+	fn := h.fn("R7", gzPkg, "Gzip.ServeHTTP")
+	if fn == nil {
+		return
+	}
+	bad, n := c18OfferTable(h)
+	r.Check(bad == "", "R7", "gzip.Gzip.ServeHTTP/offer-table", fn.Pos(), "a client that did not offer gzip gets the identity coding", fmt.Sprintf("%d requests", n), bad)
 }
